@@ -69,11 +69,11 @@ CHECKS = {
 
 # layers added later (appended to the level text)
 EXTRA = {
- "C01": " Layer 5: C03's restart probe (translation area filled to every level, then the largest block and bank 1 at the address whose bank-2 block made the area restart) through the emulator's own dispatch, compared with the interpreter build.",
+ "C01": " Layer 7: control transfers whose target is the fall-through address, the instruction itself, the block start or the bank boundary (all flag states, pending 0 and 5, three placements). Layer 5: C03's restart probe (translation area filled to every level, then the largest block and bank 1 at the address whose bank-2 block made the area restart) through the emulator's own dispatch, compared with the interpreter build.",
  "C03": " Restart probe: the translation area is filled to every level from 4 MiB to 7.9 MiB with blocks of chosen length, then a whole bank of DAA (the longest translation) is entered, and bank 1 is executed at the address whose bank-2 block made the area restart; jit and interpreter builds must agree on registers, cycles and serial bytes.",
  "C19": " History independence: the same valid file is loaded 300 times (5000 thorough) in one process under a lowered descriptor limit and must be accepted every time, with no descriptor left open.",
  "C20": " Listings of 0xFFF0 to 0x30005 bytes get the same tiling check.",
- "C02": " Through the emulator's own dispatch: the bank-switching cache-pressure program (blocks of different length per bank) is block-stepped on the jit and interpreter builds and last_block_cycle_length must agree after every block while the translation area restarts; C03's restart probe is judged on the cycle counts.",
+ "C02": " Target coincidences: every control transfer with its target equal to the fall-through address, itself, the block start or the bank boundary, all flag states, pending 0 and 5, three placements. Through the emulator's own dispatch: the bank-switching cache-pressure program (blocks of different length per bank) is block-stepped on the jit and interpreter builds and last_block_cycle_length must agree after every block while the translation area restarts; C03's restart probe is judged on the cycle counts.",
  "C05": " Every instruction with operand bytes is also placed across the ends of ROM bank 0, the switchable bank and work-RAM bank 0 and in the switchable bank under 9 bank-register values (incl. values that wrap to banks 0/1), the other banks holding complemented bytes.",
  "C06": " All encodings are also executed from the switchable bank and the end of bank 0 under bank-register values 2, 5, 0x1F, 8, 0x10, 0 with complemented bytes in the other banks.",
  "C07": " Fifth pass: with the timer armed or LYC = LY, the high-byte push lands on TAC / STAT / LYC (all 256 PC high bytes) and the source taken must be the highest-priority one pending after it. Fourth pass: after a dispatch the handler's first step (update(), interpreter block, translated block) must deliver 4 x (5 + its instructions' machine cycles) clocks to the devices.",
